@@ -869,6 +869,7 @@ def selective_reroute_flags(poly, start, end, conndist):
     sx, sy = float(start[0]), float(start[1])
     ex, ey = float(end[0]), float(end[1])
     n = len(poly)
+    opp = reroute_test_has_opposite_side_branch()
     for i in range(n):
         p1 = (float(poly[i][0]), float(poly[i][1])); p2 = (float(poly[(i + 1) % n][0]), float(poly[(i + 1) % n][1]))
         vertical = False
@@ -890,6 +891,13 @@ def selective_reroute_flags(poly, start, end, conndist):
             ex, ey = cosv * nex - sinv * ney, cosv * ney + sinv * nex
             offy = 0.0; a = sx; b = sy - offy; c = ex; d = ey - offy
             mn, mx = min(0.0, r2x), max(0.0, r2x)
+        if opp and b * d < 0:
+            x = ((abs(b) * c) + (a * abs(d))) / (abs(b) + abs(d))
+            x = min(mx, max(mn, x))
+            xp = (offy, x) if vertical else (x, offy)
+            if math.hypot(sx - xp[0], sy - xp[1]) + math.hypot(xp[0] - ex, xp[1] - ey) < conndist:
+                return True
+            continue
         if (b + d) == 0:
             d = d * -1
         if b == 0 and d == 0:
@@ -906,6 +914,22 @@ def selective_reroute_flags(poly, start, end, conndist):
         if est < conndist:
             return True
     return False
+
+
+_OPP = {}
+
+
+def reroute_test_has_opposite_side_branch():
+    """the twin follows the source under test: a proposed repair of mechanism (i) adds a branch `if ((b * d) < 0)` (crossing point
+    instead of the reflection formula when the route's ends lie on opposite sides of the edge's line)"""
+    if C.REPO not in _OPP:
+        try:
+            src = open(os.path.join(C.REPO, 'cola', 'libavoid', 'router.cpp')).read()
+            body = src[src.index('markPolylineConnectorsNeedingReroutingForDeletedObstacle('):]
+            _OPP[C.REPO] = '(b * d) < 0' in body[:12000]
+        except (OSError, ValueError):
+            _OPP[C.REPO] = False
+    return _OPP[C.REPO]
 
 
 def polyline_length(pts):
